@@ -134,7 +134,11 @@ def match_forward(toks, k, open_c, close_c):
 
 
 def find_function_body(toks, fname):
-    """Return (index of '{', index of matching '}') of the definition."""
+    """Return (index of '{', index of matching '}') of the definition.
+    'name#N' selects the N-th file-scope definition (1-based; files with a
+    _WIN32 and a POSIX variant of the same function)."""
+    fname, _, nth = fname.partition("#")
+    nth = int(nth or 1)
     for k, t in enumerate(toks):
         if t[0] == "id" and t[1] == fname and k + 1 < len(toks) \
                 and toks[k + 1][1] == "(":
@@ -153,7 +157,9 @@ def find_function_body(toks, fname):
                     elif u[0] == "punct" and u[1] == "}":
                         depth -= 1
                 if depth == 0:
-                    return j, match_forward(toks, j, "{", "}")
+                    nth -= 1
+                    if nth == 0:
+                        return j, match_forward(toks, j, "{", "}")
     raise AnnotateError("function definition not found: " + fname)
 
 
